@@ -129,7 +129,7 @@ class State:
 
     def read(self, name, ref, sort=None):
         a = self.comp(name, sort)
-        t = z3.Select(a, ref)
+        t = select_store(a, ref)
         self.base_wf(a, ref)
         return t
 
@@ -204,6 +204,36 @@ class State:
 
     def cls_of(self, ref):
         return self.read("cls", ref)
+
+
+def _distinct_syntactically(i, j):
+    """True when two index terms are certainly different: distinct numerals, or the same base plus different offsets"""
+    if z3.is_int_value(i) and z3.is_int_value(j):
+        return i.as_long() != j.as_long()
+
+    def split(t):
+        if z3.is_add(t) and t.num_args() == 2:
+            a, b = t.arg(0), t.arg(1)
+            if z3.is_int_value(a):
+                return b, a.as_long()
+            if z3.is_int_value(b):
+                return a, b.as_long()
+        return t, 0
+    (bi, oi), (bj, oj) = split(i), split(j)
+    return bi.eq(bj) and oi != oj
+
+
+def select_store(a, i):
+    """Select(a, i) with reads through Store chains resolved when the indices are syntactically equal / certainly distinct"""
+    while z3.is_app(a) and a.decl().kind() == z3.Z3_OP_STORE:
+        j = a.arg(1)
+        if j.eq(i):
+            return a.arg(2)
+        if _distinct_syntactically(i, j):
+            a = a.arg(0)
+            continue
+        break
+    return z3.Select(a, i)
 
 
 BELOW0 = [None]     # set by the engine: predicate "every reference element of the sequence is below ALLOC0"
